@@ -3,7 +3,7 @@
 checks, undo it, and print which checks fired.  Usage: tools/eval_seeded.py <dir-with-seeded-subdirs> [--keep <dest>]"""
 import json, os, subprocess, sys, shutil
 
-PROPS = ['C01', 'C02', 'C03', 'C05', 'C06', 'C07', 'C08', 'C09', 'C10', 'C11', 'C12', 'C13', 'C14', 'C15', 'C16', 'C17', 'C18', 'C19', 'C20']
+PROPS = ['C01', 'C02', 'C03', 'C04', 'C05', 'C06', 'C07', 'C08', 'C09', 'C10', 'C11', 'C12', 'C13', 'C14', 'C15', 'C16', 'C17', 'C18', 'C19', 'C20']
 V = os.path.dirname(os.path.dirname(os.path.abspath(__file__)))
 
 
